@@ -566,6 +566,28 @@ def _dump_float(value: float) -> Union[float, str]:
     return value
 
 
+class _TruncatedInput(EOFError):
+    """The input ended in the middle of a varint or a field payload (not at a field boundary)."""
+
+
+def _read_payload(stream: "SupportsRead[bytes]", length: int) -> bytes:
+    """Reads exactly ``length`` bytes of a field payload."""
+    data = stream.read(length)
+    if len(data) != length:
+        raise _TruncatedInput(
+            f"Stream ended unexpectedly: expected a payload of {length} bytes, "
+            f"got {len(data)}."
+        )
+    return data
+
+
+def _check_tag(number: int, wire_type: int) -> None:
+    if number == 0:
+        raise ValueError("Invalid field number 0.")
+    if wire_type not in (WIRE_VARINT, WIRE_FIXED_64, WIRE_LEN_DELIM, WIRE_FIXED_32):
+        raise ValueError(f"Unsupported wire type {wire_type} (field {number}).")
+
+
 def load_varint(stream: "SupportsRead[bytes]") -> Tuple[int, bytes]:
     """
     Load a single varint value from a stream. Returns the value and the raw bytes read.
@@ -577,7 +599,9 @@ def load_varint(stream: "SupportsRead[bytes]") -> Tuple[int, bytes]:
             raise ValueError("Too many bytes when decoding varint.")
         b = stream.read(1)
         if not b:
-            raise EOFError("Stream ended unexpectedly while attempting to load varint.")
+            raise (_TruncatedInput if raw else EOFError)(
+                "Stream ended unexpectedly while attempting to load varint."
+            )
         raw += b
         b_int = int.from_bytes(b, byteorder="little")
         result |= (b_int & 0x7F) << shift
@@ -608,26 +632,33 @@ def load_fields(stream: "SupportsRead[bytes]") -> Generator[ParsedField, None, N
     while True:
         try:
             num_wire, raw = load_varint(stream)
+        except _TruncatedInput:
+            raise
         except EOFError:
+            # The input may only end at a field boundary.
             return
         number = num_wire >> 3
         wire_type = num_wire & 0x7
+        _check_tag(number, wire_type)
 
         decoded: Any = None
-        if wire_type == WIRE_VARINT:
-            decoded, r = load_varint(stream)
-            raw += r
-        elif wire_type == WIRE_FIXED_64:
-            decoded = stream.read(8)
-            raw += decoded
-        elif wire_type == WIRE_LEN_DELIM:
-            length, r = load_varint(stream)
-            decoded = stream.read(length)
-            raw += r
-            raw += decoded
-        elif wire_type == WIRE_FIXED_32:
-            decoded = stream.read(4)
-            raw += decoded
+        try:
+            if wire_type == WIRE_VARINT:
+                decoded, r = load_varint(stream)
+                raw += r
+            elif wire_type == WIRE_FIXED_64:
+                decoded = _read_payload(stream, 8)
+                raw += decoded
+            elif wire_type == WIRE_LEN_DELIM:
+                length, r = load_varint(stream)
+                decoded = _read_payload(stream, length)
+                raw += r
+                raw += decoded
+            elif wire_type == WIRE_FIXED_32:
+                decoded = _read_payload(stream, 4)
+                raw += decoded
+        except EOFError as exc:
+            raise _TruncatedInput(*exc.args) from None
 
         yield ParsedField(number=number, wire_type=wire_type, value=decoded, raw=raw)
 
@@ -639,6 +670,7 @@ def parse_fields(value: bytes) -> Generator[ParsedField, None, None]:
         num_wire, i = decode_varint(value, i)
         number = num_wire >> 3
         wire_type = num_wire & 0x7
+        _check_tag(number, wire_type)
 
         decoded: Any = None
         if wire_type == WIRE_VARINT:
@@ -651,6 +683,8 @@ def parse_fields(value: bytes) -> Generator[ParsedField, None, None]:
             i += length
         elif wire_type == WIRE_FIXED_32:
             decoded, i = value[i : i + 4], i + 4
+        if i > len(value):
+            raise EOFError("Buffer ended unexpectedly in the middle of a field.")
 
         yield ParsedField(
             number=number, wire_type=wire_type, value=decoded, raw=value[start:i]
